@@ -304,7 +304,7 @@ pub fn shrink_dec(d: &Dec) -> Vec<Dec> {
         push(&mut out, neg, &digs, 0);
         push(&mut out, neg, &digs, d.scale / 2);
         push(&mut out, neg, &digs, d.scale - d.scale.signum());
-        if d.scale.abs() > 100 {
+        if d.scale.unsigned_abs() > 100 {
             push(&mut out, neg, &digs, d.scale.signum() * 100);
         }
     }
